@@ -270,6 +270,7 @@ type iterObj struct {
 	lastSeek       string      // previous seek key of a positioning burst
 	useFilter      bool        // created with RangeKeyMasking.Filter (kept across SetOptions)
 	forceFirstSeek string      // if set, the next burst starts with SeekGE of this key
+	forceLimitSeek [2]string   // if set, the next burst starts with SeekGEWithLimit(key, limit)
 	full           []string    // every op on the iterator since its creation (diagnostics)
 	l6             bool        // UseL6Filters the iterator was created with
 }
